@@ -10,6 +10,13 @@
 (*     "residual # 0" (Lanczos: beta_(i-1) # 0 iff rank K_i = i; Arnoldi:  *)
 (*     h_(idx+1,idx) # 0 iff rank K_(idx+1) = idx+1) and checks that they  *)
 (*     stop with the property's counts min(max_iters, n, KDim) (CtlOK),    *)
+(*   - for cases flagged `exact` (exact-breakdown family: permutations,    *)
+(*     diagonal / block / identity / nilpotent operators with coordinate   *)
+(*     or dyadic eigenvector starts) computes the Arnoldi factorisation    *)
+(*     exactly, checks that it is floating-point exact (FPExact), that it  *)
+(*     breaks down exactly at KDim and has the property's shape            *)
+(*     (ExactArnoldiOK), and exports Q and H; for these cases the exact    *)
+(*     test fed to the skeleton is literally cola's test with tol = 0,     *)
 (*   - prints the exact expectations consumed by the harness (Emit).       *)
 (* Blocks of cases are chained so that TLC workers share the catalog.      *)
 (***************************************************************************)
@@ -66,6 +73,7 @@ CaseOK ==
             /\ \A i \in 1..Len(c.lam): c.lam[i][2] = 0
             /\ \A x \in ExcitedSpec(c.V, c.lam, c.sup, VCol(ci)): x.mult = 1
             /\ kd = Cardinality(ExcitedSpec(c.V, c.lam, c.sup, VCol(ci)))
+      /\ c.exact => ExactArnoldiOK(c.A, VCol(ci), kd, 64)
 
 CtlOK ==
     /\ L!CtlInv(alg, N(ci), m, st)
@@ -86,6 +94,9 @@ Emit ==
                            K |-> KrylovMat(c.A, VCol(ci), n).e,
                            spec |-> IF c.hasEig THEN AnySeq(ExcitedSpec(c.V, c.lam, c.sup, VCol(ci))) ELSE <<>>,
                            full |-> IF c.hasEig THEN AnySeq(FullSpec(c.lam)) ELSE <<>>,
+                           exact |-> c.exact,
+                           xq |-> IF c.exact THEN ExactExport(c.A, VCol(ci)).xq ELSE <<>>,
+                           xh |-> IF c.exact THEN ExactExport(c.A, VCol(ci)).xh ELSE <<>>,
                            exp |-> [q \in 1..(n + Extra) |-> Expect(q, n, kd)]]))
     ELSE TRUE
 =============================================================================
